@@ -246,7 +246,7 @@ class Group:
         Timeout defaults to None meaning open-ended waiting and no kill
         attempts.
         """
-        while self:
+        while self or self._gateways_to_join:
             vias: set[str] = set()
             for gw in self:
                 if gw.spec.via:
